@@ -83,6 +83,18 @@ let handle (cmd : string) (args : t list) : t option =
        else Some (L [A "failed"; A ("i" ^ string_of_int st)])
      | Raise e -> Some (L [A "raise"; m_exn_sexp e])
      | OutOfFuel -> Some (L [A "outoffuel"]))
+  | "mergedocs", [mode; c; lt; L ls; rs] ->
+    (* rs = none (stream not loadable) | (docs <node>...) *)
+    let rs' = (match rs with A "none" -> None | L (A "docs" :: ds) -> Some (List.map node_of_sexp ds)
+                             | x -> failwith ("bad stream " ^ to_string x)) in
+    (match merge_docs_run (lit_of lt) (cfg_of c) (opt_str_of_sexp mode) (List.map node_of_sexp ls) rs' with
+     | Ok (docs, st) ->
+       let st = int_of_nat st in
+       if st = 0 then Some (L [A "ok"; L (List.map doc_out docs)])
+       else if st >= 11 && st <= 14 then Some (L [A "failed"; A "condense"])
+       else Some (L [A "failed"; A ("i" ^ string_of_int st)])
+     | Raise e -> Some (L [A "raise"; m_exn_sexp e])
+     | OutOfFuel -> Some (L [A "outoffuel"]))
   | "mergeat", [c; lt; root; L targets; d; r] ->
     let locs = List.map (function L refs -> List.map ref_of_sexp refs | x -> failwith ("bad loc " ^ to_string x)) targets in
     Some (m_outcome doc_out (merge_at (lit_of lt) (cfg_of c) (bool_of_sym root) locs (node_of_sexp d) (node_of_sexp r)))
